@@ -40,7 +40,7 @@ add("C15", "genmc", "Programs whose every directive argument is wrapped in a log
 add("C16", "genmc-x", "(a) every build-constraint header inside the bound (all //go:build expressions of depth<=2 over {cff,a,b}; all // +build lines with <=2 groups of <=2 terms; 2- and 3-line forms; both syntaxes; comment-split headers) goes through the real writeInvertedCffTag (driver injected into the cff module by overlay) and go/build.MatchFile decides, for all 8 tag assignments, that the output is selected exactly when the source is selected with cff flipped; headers that select the file under the cff tag also go end to end through the cff binary; (b) source vs output of every accepted program of the spelling/context families with directive spans masked: all other declarations token-identical, imports only added; (c) every non-empty subset of a package's files x default/explicit output x {base,source-map} processed in a fresh copy of the tree hashed before/after, TMPDIR watched: only documented output paths appear.", TB_STATIC, T_STATIC)
 add("C17", "genmc-x", "(a) the cff tool is rebuilt from the working tree with every range-over-map of the generator and of x/tools' typeutil.Map under control of a parent process, which enumerates every iteration order at every map iteration the tool performs on each program (all n! for n<=4 keys; reversal/rotations/transpositions above; one deviation at a time, thorough: pairs) and requires byte-identical output in base and source-map modes; (b) all -file subsets x explicit/default outputs x whole package yield identical bytes per source file, every file of a large package alone equals the whole-package result; (c) two fresh processes per package and mode agree and the random line-reset token never survives.", TB_STATIC, "explicit-state enumeration of the generator's nondeterminism (map iteration orders as environment answers, deviation-bounded) and of invocation histories (file subsets), on the real cff tool rebuilt with controlled map iteration")
 add("C18", "genmc", "Instrumented flows (every subset of tasks instrumented x InstrumentFlow x emitters {1,2,nested stack}) and Parallels x outcomes {ok,error,panic,predicate false} over all interleavings with recording emitters: exactly one Success/Error (Error carrying the returned error) then one Done last; one matching outcome event + one TaskDone per invocation; TaskSkipped once for uninvoked tasks on nil; every emitter of a stack sees the same sequence.", TB_GEN, T_GEN)
-add("C19", "vsched", "Scenarios with a recording emitter and a tick budget of 1..3: every emitted State satisfies the stated arithmetic, Pending/Waiting bounded by the jobs whose Enqueue began happens-before the report, no report after a normal Wait return.", TB_SCHED, T_SCHED)
+add("C19", "vsched+genmc", "Scheduler level: scenarios with a recording emitter and a tick budget of 1..3: every emitted State satisfies the stated arithmetic, Pending/Waiting bounded by the jobs whose Enqueue began happens-before the report, no report after a normal Wait return. Generated-code level: flows and a Parallel with a user emitter (explicit and default Concurrency, predicates, a failing task), tick budget 1..2, all interleavings: the SchedulerState values the user's emitter receives through the root package's adapter satisfy the same arithmetic against the limit the directive configured and the number of jobs of the flow.", TB_GEN, T_GEN)
 add("C20", "genmc-static", "(a) every accepted program of the C13 families (incl. hand-written inputs such as a 70 kB line): comment-free token streams of base and source-map output are identical and both modes agree on acceptance. (b) the MOD family (flows from Params, Results, Concurrency and plain Tasks: named shapes, task listing orders, type spellings, task forms, import situations, differently spelled identical types) is generated in base and in modifier mode, both are compiled and explored over all interleavings for every single failing and single panicking task; every modifier-mode execution is judged by the reference oracles and the set of observable outcomes per scenario must equal the base-mode set.", TB_STATIC, T_STATIC)
 
 NOT_YET = {
